@@ -41,6 +41,9 @@ type Case struct {
 	// Prior: the rule set is first loaded with a version that differs in exactly one aspect and then updated to the
 	// version under test ("" = loaded directly): on_error-flipped | backtracking-flipped | last-step-dropped | finalizer-appended
 	Prior string `json:"reached_by_update_from,omitempty"`
+	// Trailing: the rule set holds a second, well-formed rule AFTER the rule under test (a malformed rule rejects the set
+	// wherever it stands)
+	Trailing bool `json:"followed_by_a_well_formed_rule,omitempty"`
 }
 
 var priors = []string{"on_error-flipped", "backtracking-flipped", "last-step-dropped", "finalizer-appended",
@@ -329,6 +332,11 @@ func judge(c *engine.Ctx, cs *Case) {
 	rs.Source = "c14"
 	rs.Rules = []rulecfg.Rule{cs.rule("r", "/r", nil)}
 
+	if cs.Trailing {
+		extra := Case{Steps: "a", ForwardTo: cs.ForwardTo, BT: "unset", BadStep: -1}
+		rs.Rules = append(rs.Rules, extra.rule("trailing", "/trailing", nil))
+	}
+
 	if strings.HasSuffix(cs.Prior, "+rule-appended") {
 		extra := Case{Steps: "a", ForwardTo: cs.ForwardTo, BT: "unset", BadStep: -1}
 		rs.Rules = append(rs.Rules, extra.rule("appended", "/appended", nil))
@@ -384,7 +392,7 @@ func judge(c *engine.Ctx, cs *Case) {
 			what = "well-formed-rule-rejected"
 		}
 
-		c.Violation(what+"/"+cs.malformation(), fmt.Sprintf("%+v: load error = %v", *cs, loadErr), cs)
+		c.Violation(what+"/"+cs.malformation()+x(cs.Trailing, "/followed-by-a-well-formed-rule", ""), fmt.Sprintf("%+v: load error = %v", *cs, loadErr), cs)
 
 		return
 	case loadErr != nil:
@@ -440,6 +448,23 @@ func judge(c *engine.Ctx, cs *Case) {
 	}
 
 	if err := proc.OnCreated(rs2); err != nil {
+		c.Violation("backtracking-fixture-rejected", fmt.Sprintf("%+v: %v", *cs, err), cs)
+
+		return
+	}
+
+	// rule sets of other sources come and go afterwards: the setting of the rules loaded before stays what it is
+	rs3 := &rulecfg.RuleSet{Version: rulecfg.CurrentRuleSetVersion, Name: "c14other"}
+	rs3.Source = "c14other"
+	rs3.Rules = []rulecfg.Rule{less.rule("unrelated", "/unrelated/:x", nil)}
+
+	if err := proc.OnCreated(rs3); err != nil {
+		c.Violation("backtracking-fixture-rejected", fmt.Sprintf("%+v: %v", *cs, err), cs)
+
+		return
+	}
+
+	if err := proc.OnDeleted(rs3); err != nil {
 		c.Violation("backtracking-fixture-rejected", fmt.Sprintf("%+v: %v", *cs, err), cs)
 
 		return
@@ -565,7 +590,7 @@ func Check() *engine.Check {
 			"authentication stage, backtracking off/on) x rule execute lists (every sequence of length 0-3 [quick] / 0-4 [thorough] over " +
 			"authenticator/authorizer/contextualizer/finalizer) x on_error absent/present x backtracking_enabled unset/true/false x operation mode " +
 			"x forward_to absent/present, plus every single step referencing an unknown mechanism or carrying a rejected override and conditional " +
-			"steps; every accepted rule also reached by an update from a version differing in one aspect (on_error, backtracking, last step " +
+			"steps (malformed rules also followed by a well-formed one); every accepted rule also reached by an update from a version differing in one aspect (on_error, backtracking, last step " +
 			"dropped, finalizer appended; also with a further rule appended by the same update); through the real rule factory, rule-set processor, repository and executor with a scripted mechanism factory recording the " +
 			"executed mechanisms; oracle: acceptance predicate of the statement, reference effective pipeline (three request modes: first " +
 			"authenticator succeeds, authenticators fall through, authentication fails) and behavioural backtracking test. Real part: every ordered " +
@@ -626,8 +651,15 @@ func run(c *engine.Ctx) {
 				for _, bt := range []string{"unset", "true", "false"} {
 					for _, proxy := range []bool{false, true} {
 						for _, fwd := range []bool{false, true} {
-							base := Case{d.has, d.z, d.f, d.e, d.bt, seq, oe, bt, proxy, fwd, -1, "", false, ""}
+							base := Case{HasDefault: d.has, DefAuthz: d.z, DefFin: d.f, DefEH: d.e, DefBT: d.bt, Steps: seq, OnError: oe, BT: bt, Proxy: proxy,
+								ForwardTo: fwd, BadStep: -1}
 							judge(c, &base)
+
+							if !base.expectAccepted() {
+								tr := base
+								tr.Trailing = true
+								judge(c, &tr)
+							}
 
 							if base.expectAccepted() && !proxy {
 								for _, pr := range priors {
@@ -646,6 +678,9 @@ func run(c *engine.Ctx) {
 								for _, bk := range []string{"unknown-id", "bad-override"} {
 									b := base
 									b.BadStep, b.BadKind = i, bk
+									judge(c, &b)
+
+									b.Trailing = true
 									judge(c, &b)
 								}
 							}
